@@ -176,14 +176,8 @@ def run(prog: Program, ctx: Ctx) -> None:  # noqa: PLR0912,PLR0915
             got = f"raises {r.exc}"
         ctx.ob("R7", f"get_docstring|node={node_kind}|strict={strict}|first={first}|value={val}", got == want,
                f"get_docstring(node={node_kind}, strict={strict}, first statement={first}, value={val}) = {got}, expected {want}", where(gd))
-    ok = False
-    for c in calls_in(ha.node):
-        if dotted(c.func) == "self._get_docstring" and c.args and unparse(c.args[0]).replace(" ", "") == "ast_next(node)":
-            s = kwarg(c, "strict")
-            from sa.aliasderef import enclosing_catch
-
-            ok = isinstance(s, ast.Constant) and s.value is True and "LastNodeError" in enclosing_catch(c)
-    ctx.ob("R7", key(ha, "attribute-docstring"), ok, "attribute docstring = the string expression right after the assignment (strict, LastNodeError tolerated)", where(ha))
+    # (which statement handle_attribute hands to get_docstring - the next one of the same block, strictly a string - is decided on generated modules by
+    # the extraction table R10: attribute docstrings, strings opening an else / except / finally block, last statements)
 
     # ------------------------------------------------------------------ R8 label tables
     ctx.rule("R8", "decorator label tables are consulted (builtin and stdlib), the overload set contains both typing spellings, and the "
